@@ -42,7 +42,7 @@ def chunked_body(ctx, sizes, style=0):
 FRAMINGS = ['none', 'cl0', 'cl-small', 'cl-1024', 'cl-1025', 'chunked', 'chunked+cl', 'upgrade']
 
 
-def build_request(ctx, framing, tier, expect=False, follow=True):
+def build_request(ctx, framing, tier, expect=False, follow=True, concrete_body=False):
     """-> (bytes, body exprs, declared length or None, end-of-body offset, follow-up bytes)"""
     head = K(b'POST /a HTTP/1.1\r\nHost: h\r\n')
     body = []
@@ -54,7 +54,8 @@ def build_request(ctx, framing, tier, expect=False, follow=True):
         n = {'cl0': 0, 'cl-small': [1, 3][ctx.choose(2, 'n')], 'cl-1024': 1024, 'cl-1025': 1025}[framing]
         declared = n
         head += case_variant(ctx, b'Content-Length') + K(b': %d\r\n' % n)
-        body = sym_bytes(ctx, n)
+        # bodies that nobody compares are concrete filler: if a defect lets them be parsed as a head, the parse stays cheap
+        body = K(b'y' * n) if (concrete_body and n > 16) else sym_bytes(ctx, n)
         wire_body = body
     elif framing in ('chunked', 'chunked+cl'):
         sizes = [[3], [1, 2], [2, 1, 1], [10]][ctx.choose(4 if tier != 'quick' else 3, 'chunks')]
@@ -161,7 +162,9 @@ def run(L, rep, tier, seed):
         if r2 is PARKED:
             r2 = cv.settle()
         if r2 is not None and r2 is not PARKED:
-            ctx.check_always(slice_eq_exprs(cv.summary(r2)['url'], K(b'/n')), fr + '/next-request-starts-after-body', sc)
+            s2 = cv.summary(r2)
+            ctx.check_always(z3.And(slice_eq_exprs(s2['url'], K(b'/n')), z3.BoolVal(isinstance(s2['method'], Enum) and s2['method'].variant == 'Get'),
+                                    z3.BoolVal(len(s2['headers']) == 1)), fr + '/next-request-starts-after-body', sc)
         else:
             ctx.check_always(z3.BoolVal(False), fr + '/next-request-starts-after-body', sc)
         return True
